@@ -66,7 +66,7 @@ LEVEL_NOTE = "trusted: vf/models/httpref.py request parser, the scripted server 
 NSHARDS = {"quick": 8, "thorough": 16}
 PEAK_COUNTERS = ("max_rounds_used",)
 TIMEOUT_S = {"quick": 240, "thorough": 1500}
-BUDGET_S = {"quick": 25, "thorough": 400}
+BUDGET_S = {"quick": 25, "thorough": 300}
 REQUIRE = {"requests_arrived": 800, "arrival_order_checks": 800, "rx_events_checked_against_outstanding_response": 800,
            "responses_entries_checked": 500, "redirect_histories_checked": 60, "downgrade_cases": 8,
            "rounds_with_response_pending_and_more_requests_queued": 200, "healthy_progress_checks": 100,
@@ -244,7 +244,7 @@ def cases(tier, seed, shard, nshards):
                     yield {"kind": "closeeach", "tls": False, "reconnectable": True, "tymeout": 1.0, "tock": tock, "reqs": reqs}
                 i += 1
     rng = random.Random(f"{seed}:C19:{shard}")
-    nrand = (720 if tier == "quick" else 32000) // nshards
+    nrand = (720 if tier == "quick" else 24000) // nshards
     for c in range(nrand):
         r = rng.random()
         tls = r < 0.14
